@@ -212,15 +212,83 @@ fn gen_rules(r: &mut Rng, d: u32) -> Vec<GRule> {
 // the printer: tokens separated by gaps (whitespace and comments wherever grammar.pest skips implicitly)
 // ------------------------------------------------------------------------------------------------
 #[derive(Default)]
-struct Stats { gaps_ws: u64, comments: u64, escapes: u64, zeros: u64 }
-struct Pr<'a> { r: &'a mut Rng, out: String, layout: u64, esc: u64, insens_gap: bool, used_insens_gap: bool, st: Stats }
+struct Stats { gaps_ws: u64, comments: u64, escapes: u64, zeros: u64, hostile: u64, star_run_close: u64, eot_comment: u64 }
+struct Pr<'a> { r: &'a mut Rng, out: String, layout: u64, esc: u64, insens_gap: bool, used_insens_gap: bool, st: Stats, marks: Vec<usize>, open_doc: bool }
+
+// ---- what a gap is (coq/Meta/Text.v `gap`; grammar.pest WHITESPACE / COMMENT as the property's text reads them), written independently of
+// ---- the reader under test: it decides which generated comments are legal, so that hostile comment bodies can be generated freely
+/// end of the block comment that starts at p (Text.v `block_comment`): "/*", then nested block comments and characters that start neither
+/// `*/` nor `/*`, then "*/".  A `/*` in the body that is not itself a complete comment makes the text no comment at all: grammar.pest would
+/// try it as a nested comment against everything that follows, so whether the outer comment ends would depend on the rest of the file.
+fn block_end(b: &[u8], p: usize) -> Option<usize> {
+    if !b[p.min(b.len())..].starts_with(b"/*") { return None; }
+    let mut q = p + 2;
+    loop {
+        if b[q..].starts_with(b"*/") { return Some(q + 2); }
+        if b[q..].starts_with(b"/*") { q = block_end(b, q)?; continue; }
+        if q >= b.len() { return None; }
+        q += 1;                                     // `*` and `/` are ASCII: stepping over bytes or over characters is the same here
+    }
+}
+/// is w exactly a sequence of blanks, newlines, block comments and line comments (each line comment with its newline; the last one may
+/// end the text instead when `at_end`)?
+fn is_gap(w: &str, at_end: bool) -> bool {
+    let b = w.as_bytes();
+    let mut p = 0;
+    while p < b.len() {
+        if b[p] == b' ' || b[p] == b'\t' || b[p] == b'\n' { p += 1; }
+        else if b[p..].starts_with(b"\r\n") { p += 2; }
+        else if let Some(e) = block_end(b, p) { p = e; }
+        else if b[p..].starts_with(b"//") && !b[p + 2..].starts_with(b"/") && !b[p + 2..].starts_with(b"!") {
+            match b[p..].iter().position(|&c| c == b'\n') { Some(k) => p += k + 1, None => { if at_end { p = b.len(); } else { return false; } } }
+        }
+        else { return false; }
+    }
+    true
+}
 // block comment texts must not create `*/` or `/*` at their borders
 const COMMENT_TEXT: &[&str] = &["", "c", " a = { b } ", "\"", "\\", "'", "{ | ~ }", " * ", " / ", "^ \"x\"", "é€", " // ", "#t = ", "\\u{zz}", "* x"];
 impl<'a> Pr<'a> {
     fn ws(&mut self) -> &'static str { ["", " ", " ", "\n", "\t", "\r\n", "  ", " \n "][self.r.below(8) as usize] }
+    fn stars(&mut self, max: u64) -> String { "*".repeat(self.r.range(1, max) as usize) }
+    /// the body of a block comment made of what its delimiters are made of: runs of `*` and `/`, `* /`, `/ *`, nested comments, newlines,
+    /// with a run right after the opener and right before the terminator; kept only if the reference scanner says it is one comment
+    fn hostile_block(&mut self, depth: u32) -> String {
+        for _ in 0..12 {
+            let mut body = String::new();
+            if self.r.chance(1, 3) { let t = self.stars(3); body.push_str(&t); }
+            let n = self.r.weighted(&[2, 3, 3, 2, 1]);
+            for _ in 0..n {
+                match self.r.below(11) {
+                    0 | 1 => { let t = self.stars(4); body.push_str(&t); }
+                    2 => body.push_str(&"/".repeat(self.r.range(1, 3) as usize)),
+                    3 => if depth > 0 { let t = self.hostile_block(depth - 1); body.push_str(&t); } else { body.push_str("/ *") },
+                    4 => body.push_str("* /"),
+                    5 => body.push_str(*self.r.pick(&["\n", "\r\n", "\n * ", " "])),
+                    6 => body.push_str(*self.r.pick(COMMENT_TEXT)),
+                    7 => body.push_str(*self.r.pick(&["x", "a = { b }", "é", "\"", "//", "// x\n", "///", "//!"])),
+                    8 => body.push_str("/*/"),
+                    9 => body.push_str("*\\/"),
+                    _ => body.push(' '),
+                }
+            }
+            let close = self.r.below(3) == 0;
+            if close { let t = self.stars(4); body.push_str(&t); }
+            let c = format!("/*{}*/", body);
+            if block_end(c.as_bytes(), 0) == Some(c.len()) {
+                if close { self.st.star_run_close += 1; }
+                return c;
+            }
+        }
+        "/**/".to_string()
+    }
     fn comment(&mut self) -> String {
         self.st.comments += 1;
-        match self.r.below(4) {
+        match self.r.below(7) {
+            4 | 5 => { self.st.hostile += 1; self.hostile_block(2) }
+            6 => { self.st.hostile += 1;
+                   let t = *self.r.pick(&["*/", "/*", "/* x", "**/", "*", "a = { b } // c", "\"", "\r x", "\\", "x /", "/**/", "\t", " !", " /"]);
+                   format!("//{}{}{}", if t.starts_with('/') || t.starts_with('!') { " " } else { "" }, t, if self.r.chance(1, 3) { "\r\n" } else { "\n" }) }
             0 => format!("/*{}*/", self.r.pick(COMMENT_TEXT)),
             1 => format!("/*{}/*{}*/{}*/", self.r.pick(COMMENT_TEXT), self.r.pick(COMMENT_TEXT), self.r.pick(COMMENT_TEXT)),
             2 => { let t = *self.r.pick(COMMENT_TEXT); format!("//{}{}\n", if t.starts_with('/') || t.starts_with('!') { " " } else { "" }, t) }
@@ -240,7 +308,8 @@ impl<'a> Pr<'a> {
             }
         }
     }
-    fn tok(&mut self, t: &str) { self.gap(); self.out.push_str(t); }
+    /// `marks`: the offsets at which a token (or doc line) starts = the places where grammar.pest skips implicitly
+    fn tok(&mut self, t: &str) { self.gap(); self.marks.push(self.out.len()); self.out.push_str(t); }
     fn hexdigits(&mut self, v: u32, width: usize) -> String {
         format!("{:0w$x}", v, w = width).chars().map(|c| if self.r.chance(1, 2) { c.to_ascii_uppercase() } else { c }).collect()
     }
@@ -290,9 +359,10 @@ impl<'a> Pr<'a> {
     }
     fn doc(&mut self, lead: &str, last: bool) {
         self.gap();
+        self.marks.push(self.out.len());
         let t = *self.r.pick(&["", " ", "doc", " a = { b }", "\tx\r", "//", " \"\\q"]);
         self.out.push_str(lead); self.out.push_str(t);
-        if !(last && self.r.chance(1, 2)) { self.out.push_str(if self.r.chance(1, 4) { "\r\n" } else { "\n" }); }
+        if !(last && self.r.chance(1, 2)) { self.out.push_str(if self.r.chance(1, 4) { "\r\n" } else { "\n" }); } else { self.open_doc = true; }
     }
     fn grammar(&mut self, g: &CG) {
         for _ in 0..g.gdocs { self.doc("//!", false); }
@@ -302,8 +372,19 @@ impl<'a> Pr<'a> {
             let _ = k;
         }
         for k in 0..g.trailing { self.doc("///", k + 1 == g.trailing); }
-        // a final gap; a line comment there needs no newline, but ours always carry one
+        // a final gap; a line comment at the very end of the text needs no newline
+        let start = self.out.len();
         self.gap();
+        if self.layout >= 3 && self.r.chance(1, 8) {
+            self.st.comments += 1; self.st.eot_comment += 1;
+            let t = *self.r.pick(&["", " c", " a = { b }", " */", " /*", " **/", "x\r", "\t", "*/"]);
+            self.out.push_str("//"); self.out.push_str(t);
+        }
+        // after a last `///` line without its newline the gap continues that line up to the first newline; what follows must be a gap by itself
+        if self.open_doc {
+            let ok = match self.out[start..].find('\n') { None => true, Some(k) => is_gap(&self.out[start + k + 1..], true) };
+            if !ok { self.out.truncate(start); }
+        }
     }
 }
 
@@ -335,7 +416,7 @@ fn observe(text: &str) -> (String, String) {
 }
 
 #[derive(Default)]
-struct Tot { n: u64, ok: u64, invalid: u64, known: u64, contract: u64, nontrivial: u64, redundant: u64, comments: u64, escapes: u64, docs: u64, zeros: u64, bars: u64, mixed_levels: u64, same_level_nests: u64, prefix_postfix: u64 }
+struct Tot { hostile: u64, star_run_close: u64, eot_comment: u64, esc_regular: u64, esc_model_oracle: u64, n: u64, ok: u64, invalid: u64, known: u64, contract: u64, nontrivial: u64, redundant: u64, comments: u64, escapes: u64, docs: u64, zeros: u64, bars: u64, mixed_levels: u64, same_level_nests: u64, prefix_postfix: u64 }
 
 fn features(e: &GE, t: &mut (bool, bool, bool)) {
     use GE::*;
@@ -394,12 +475,13 @@ impl<'w> Run<'w> {
                           trailing: if layout >= 2 && r.chance(1, 6) { r.range(1, 2) as usize } else { 0 },
                           rules: rules.iter().map(|g| CRule { docs: if layout >= 2 && r.chance(1, 5) { r.range(1, 2) as usize } else { 0 }, name: g.name.clone(), ty: g.ty,
                                                               bar: k > 0 && r.chance(1, 5), body: decorate(&g.e, r, &mut d) }).collect() };
-            let mut p = Pr { r: &mut *r, out: String::new(), layout, esc: if k == 0 { 0 } else { *[0u64, 20, 60, 100].get(p_idx(k)).unwrap() }, insens_gap: known_mode && !d.bar, used_insens_gap: false, st: Stats::default() };
+            let mut p = Pr { r: &mut *r, out: String::new(), layout, esc: if k == 0 { 0 } else { *[0u64, 20, 60, 100].get(p_idx(k)).unwrap() }, insens_gap: known_mode && !d.bar, used_insens_gap: false, st: Stats::default(), marks: vec![], open_doc: false };
             p.grammar(&cg);
             let known = (d.used_bar && !self.fixed[1]) || (p.used_insens_gap && !self.fixed[0]);
             let (text, st) = (p.out, p.st);
             let t = &mut self.tot;
             if d.used_redundant { t.redundant += 1; } if st.comments > 0 { t.comments += 1; } if st.escapes > 0 { t.escapes += 1; } if st.zeros > 0 { t.zeros += 1; }
+            if st.hostile > 0 { t.hostile += 1; } if st.star_run_close > 0 { t.star_run_close += 1; } if st.eot_comment > 0 { t.eot_comment += 1; }
             if cg.gdocs + cg.trailing + cg.rules.iter().map(|r| r.docs).sum::<usize>() > 0 { t.docs += 1; } if cg.rules.iter().any(|r| r.bar) { t.bars += 1; }
             self.case(&cg, &text, known);
         }
@@ -473,16 +555,81 @@ fn main() {
                 run.case(&one(CE::Tag(Box::new(CE::Neg(Box::new(CE::Rep(id("b"))))), "t".into())), "a = { #t = !b* }", false);
             }
         }
+        "escalate" => {
+            // escalate UNITS LEN1 LEN2 SHARD SHARDS: the search that runs after the real meta-grammar was found to differ from its transcription.
+            // UNITS = comma separated hex strings (the terminals of the rules that differ, a letter, a blank, a newline). Every word of at most
+            // LEN1 units is inserted at every offset of the first base spelling, every word of at most LEN2 units at every offset of the other
+            // base spellings (which together use every token kind). Where the offset is a place at which grammar.pest skips implicitly and the
+            // word is a gap according to the reference scanner above, the text is a legal spelling of the base grammar: an ordinary case, with
+            // the written AST as the oracle. Everywhere else the line carries m=1 and the runner takes the expected reading from the
+            // specification reader (transcribed grammar.pest under Peg.Spec, then the model of consume_rules).
+            let units: Vec<String> = arg(2).split(',').filter(|u| !u.is_empty()).map(unhex).collect();
+            let (len1, len2) = (arg_u64(3, 3) as usize, arg_u64(4, 2) as usize);
+            let (shard, shards) = (arg_u64(5, 0), arg_u64(6, 1));
+            let id = |s: &str| Box::new(CE::Id(s.into()));
+            let rule = |ty: Ty, docs: usize, body: CE| CRule { docs, name: "a".into(), ty, bar: false, body };
+            let mut bases = vec![
+                CG { gdocs: 0, trailing: 0, rules: vec![rule(Ty::Normal, 0, CE::Seq(id("b"), Box::new(CE::Str("c".into()))))] },
+                CG { gdocs: 0, trailing: 0, rules: vec![rule(Ty::Atomic, 0, CE::Cho(Box::new(CE::Ins("A\n".into())), Box::new(CE::Range('a', 'b'))))] },
+                CG { gdocs: 0, trailing: 0, rules: vec![rule(Ty::Silent, 0, CE::Seq(Box::new(CE::Seq(Box::new(CE::RepMM(id("b"), 2, 3)), Box::new(CE::Peek(Some(-1), Some(2))))),
+                                                                                  Box::new(CE::Rep(Box::new(CE::Push(false, id("c")))))))] },
+                CG { gdocs: 1, trailing: 0, rules: vec![rule(Ty::Compound, 1, CE::Cho(Box::new(CE::Neg(Box::new(CE::Rep1(id("b"))))), Box::new(CE::Pos(Box::new(CE::Opt(id("c")))))))] },
+            ];
+            // the grammar-extras build only adds what the default build cannot read: tags and PUSH_LITERAL
+            if EXTRAS { bases.clear(); bases.push(CG { gdocs: 0, trailing: 0, rules: vec![rule(Ty::NonAtomic, 0, CE::Seq(Box::new(CE::Tag(id("b"), "t".into())), Box::new(CE::PushLit("c".into()))))] }); }
+            let mut words: Vec<(usize, String)> = vec![];               // (number of units, word), without duplicates
+            let mut level: Vec<String> = vec![String::new()];
+            let mut seen_w: HashSet<String> = HashSet::new();
+            for l in 1..=std::cmp::max(len1, len2) {
+                let mut next = vec![];
+                for w in &level { for u in &units { let x = format!("{}{}", w, u); if seen_w.insert(x.clone()) { words.push((l, x.clone())); next.push(x); } } }
+                level = next;
+            }
+            let mut rng = Rng::new(7);
+            let mut k = 0u64;
+            for (bi, cg) in bases.iter().enumerate() {
+                let mut p = Pr { r: &mut rng, out: String::new(), layout: 0, esc: if bi == 0 && !EXTRAS { 0 } else { 100 }, insens_gap: false, used_insens_gap: false, st: Stats::default(), marks: vec![], open_doc: false };
+                p.grammar(cg);
+                let (base, mut marks) = (p.out, p.marks);
+                marks.push(base.len());
+                let maxl = if EXTRAS { len2 + 1 } else if bi == 0 { len1 } else { len2 };
+                for off in 0..=base.len() {
+                    if !base.is_char_boundary(off) { continue; }
+                    for (l, w) in &words {
+                        if *l > maxl { continue; }
+                        k += 1;
+                        if k % shards != shard { continue; }
+                        let text = format!("{}{}{}", &base[..off], w, &base[off..]);
+                        if marks.contains(&off) && is_gap(w, off == base.len()) {
+                            run.tot.esc_regular += 1;
+                            run.case(cg, &text, false);
+                        } else {
+                            let (res, fo) = observe(&text);
+                            run.tot.n += 1; run.tot.esc_model_oracle += 1;
+                            writeln!(run.w, "x={}|m=1|t={}\t{}|{}", EXTRAS as u8, hex(&text), res, fo).unwrap();
+                        }
+                    }
+                }
+            }
+        }
         "one" => {
             // x=..|c=<concrete sexp>|t=<hex> : re-run exactly this spelling
             let case = arg(2);
             let f: Vec<&str> = case.split('|').collect();
+            if f[1].starts_with("m=") {
+                // a case of the escalated search whose expected reading comes from the specification reader (no written AST)
+                let text = unhex(f[2].strip_prefix("t=").unwrap());
+                let (res, fo) = observe(&text);
+                writeln!(run.w, "{}\t{}|{}", case, res, fo).unwrap();
+                run.tot.n += 1;
+            } else {
             let cg = cg_of(f[1].strip_prefix("c=").unwrap()); let text = unhex(f[2].strip_prefix("t=").unwrap());
             run.case(&cg, &text, true);
+            }
         }
-        _ => { eprintln!("usage: c07 probe | metagrammar | random COUNT SEED [PER] [DEPTH] | exhaustive DEPTH OPS [PER SEED SHARD SHARDS] | witness | one CASE"); std::process::exit(2); }
+        _ => { eprintln!("usage: c07 probe | metagrammar | random COUNT SEED [PER] [DEPTH] | exhaustive DEPTH OPS [PER SEED SHARD SHARDS] | witness | escalate UNITS LEN1 LEN2 [SHARD SHARDS] | one CASE"); std::process::exit(2); }
     }
     let t = &run.tot;
-    writeln!(run.w, "#SUMMARY\tevaluations={}\tdistinct_nontrivial={}\tok={}\tinvalid={}\tknown_generated={}\tcontract={}\tredundant_parens={}\twith_comments={}\twith_escapes={}\twith_docs={}\tleading_zeros={}\trule_bars={}\tmixed_levels={}\tsame_level_nests={}\tprefix_postfix={}",
-        t.n, t.nontrivial, t.ok, t.invalid, t.known, t.contract, t.redundant, t.comments, t.escapes, t.docs, t.zeros, t.bars, t.mixed_levels, t.same_level_nests, t.prefix_postfix).unwrap();
+    writeln!(run.w, "#SUMMARY\tevaluations={}\tdistinct_nontrivial={}\tok={}\tinvalid={}\tknown_generated={}\tcontract={}\tredundant_parens={}\twith_comments={}\twith_escapes={}\twith_docs={}\tleading_zeros={}\trule_bars={}\tmixed_levels={}\tsame_level_nests={}\tprefix_postfix={}\thostile_comments={}\tstar_run_before_close={}\tline_comment_at_end_of_text={}\tescalation_written_ast_oracle={}\tescalation_model_oracle={}",
+        t.n, t.nontrivial, t.ok, t.invalid, t.known, t.contract, t.redundant, t.comments, t.escapes, t.docs, t.zeros, t.bars, t.mixed_levels, t.same_level_nests, t.prefix_postfix, t.hostile, t.star_run_close, t.eot_comment, t.esc_regular, t.esc_model_oracle).unwrap();
 }
